@@ -1062,3 +1062,55 @@ def _lin_bin(body, op, x, y, depth, unknown):
             return [(ka << cb, ba, ca << cb)]
         return unknown()
     return unknown()
+
+
+def deciders(body, blk, limit=16):
+    """all switches up the dominator chain that decide whether `blk` runs, with what they branch on:
+    [(switch_blk, kind, text, truth)]  kind in call|cmp|disc|other; text = callee name / canonical comparison / adt;
+    truth = the outcome under which blk runs (True/False for bools, variant index list for discriminants)"""
+    out = []
+    cur = idom(body, blk)
+    hops = 0
+    while cur is not None and hops < 200 and len(out) < limit:
+        hops += 1
+        t = body.term(cur)
+        if t["t"] == "switch":
+            succs = body.succ(cur)
+            live = [s_ for s_ in succs if body.term(s_)["t"] != "unreachable"]
+            reach = [s_ for s_ in live if s_ == blk or blk in body.reachable_from(s_, avoid={cur})]
+            if not (len(reach) == len(live) and len(live) > 1):
+                pl = op_place(t["on"])
+                kind, text, truth = "other", "", None
+                if pl is not None and len(pl) == 1:
+                    loc, neg = pl[0], False
+                    for _ in range(4):
+                        ds = body.defs_of(loc)
+                        if len(ds) != 1:
+                            break
+                        (bb, jj, rv) = ds[0]
+                        if jj == "term":
+                            kind, text = "call", callee(rv)
+                            break
+                        if rv[0] == "un" and rv[1] == "Not" and op_place(rv[2]) and len(op_place(rv[2])) == 1:
+                            loc, neg = op_place(rv[2])[0], not neg
+                            continue
+                        if rv[0] == "use" and op_place(rv[1]) and len(op_place(rv[1])) == 1:
+                            loc = op_place(rv[1])[0]
+                            continue
+                        if rv[0] == "bin":
+                            kind = "cmp"
+                            text = "%s %s %s" % ("|".join(sorted(value_roles(body, rv[2]))), rv[1], "|".join(sorted(value_roles(body, rv[3]))))
+                            break
+                        if rv[0] == "disc":
+                            kind, text = "disc", body.local_ty(rv[1][0])
+                            break
+                        break
+                    if kind in ("call", "cmp"):
+                        tr, fa = switch_edges_on_local(body, cur)
+                        on_true = any(s_ in tr for s_ in reach)
+                        truth = on_true != neg
+                    elif kind == "disc":
+                        truth = sorted(int(v) for v, tgt in t["cases"] if tgt in reach)
+                out.append((cur, kind, text, truth))
+        cur = idom(body, cur)
+    return out
